@@ -23,6 +23,28 @@ Theorem C01_recovery_exact : forall (n : nat) (ops : list wop) (k : key), 0 < n 
 Proof. intros n ops k H. exact (recovery_exact_repaired n ops H k). Qed.
 Print Assumptions C01_recovery_exact.
 
+(* DROP MEASUREMENT in the history machine (WDrop m: acknowledged only after its own flush removed every closed epoch's log).
+   C01_recovery_exact above already quantifies over op lists containing drops anywhere, also between any two flush steps;
+   the three theorems below say what the acknowledged history is after a drop: exactly the cells of m are gone, every other
+   measurement is untouched, and nothing of m comes back in ANY later state (any later writes to other measurements,
+   flush steps, further drops, crash positions), i.e. recovery never brings back a dropped measurement. *)
+Theorem C01_drop_spec : forall st m, drop_ready st m = true -> acked (wstep st (WDrop m)) = map (keep_not m) (acked st).
+Proof. exact drop_spec. Qed.
+Print Assumptions C01_drop_spec.
+
+Theorem C01_drop_keeps_other_measurements : forall st m k, drop_ready st m = true -> mst_of k <> m ->
+  lww (acked (wstep st (WDrop m))) k = lww (acked st) k.
+Proof. exact drop_keeps_others. Qed.
+Print Assumptions C01_drop_keeps_other_measurements.
+
+Theorem C01_dropped_measurement_never_comes_back : forall n ops1 m ops2 k, 0 < n ->
+  drop_ready (wrun ops1) m = true ->
+  Forall (fun o => match o with WWrite b => has_mst m b = false | _ => True end) ops2 ->
+  mst_of k = m ->
+  recovered_repaired n (wrun (ops1 ++ WDrop m :: ops2)) k = None.
+Proof. exact dropped_stays_dropped. Qed.
+Print Assumptions C01_dropped_measurement_never_comes_back.
+
 (* re-applying in order a part of the history that is already in the data files changes nothing (replay of a log
    whose prefix is flushed) *)
 Theorem replay_idempotent : forall (a b c : list batch) (k : key),
@@ -37,14 +59,17 @@ Theorem wal_file_order_numeric : forall (B : Type) (created listing : list (@wfi
 Proof. intros B created listing Hs Hp. exact (restore_numeric created listing Hs Hp). Qed.
 Print Assumptions wal_file_order_numeric.
 
-(* restoreLog's comparator on the decimal file names (shorter name first, then string order) is that numeric order
-   (finite table: all sequence numbers below name_table_bound = 260, which covers 9/10 and 99/100), so replay reads the
-   records of a partition in write order *)
+(* restoreLog's comparator on the decimal file names (shorter name first, then string order) is the numeric order for ALL
+   sequence numbers (induction on digit lists: canonical decimal representation, value bounds by length) ... *)
+Theorem wal_file_name_order_is_numeric : forall a b : nat, name_ltb a b = Nat.ltb a b.
+Proof. exact name_ltb_is_numeric. Qed.
+Print Assumptions wal_file_name_order_is_numeric.
+
+(* ... so replay reads the records of a partition in write order from any directory listing *)
 Theorem wal_file_restore_order : forall (B : Type) (created listing : list (@wfile B)),
   StronglySorted klt created -> Permutation listing created ->
-  (forall f, In f created -> fst f < name_table_bound) ->
   restore_records name_ltb listing = concat (map snd created).
-Proof. intros B created listing Hs Hp Hb. exact (restore_code_order created listing Hs Hp Hb). Qed.
+Proof. intros B created listing Hs Hp. exact (restore_code_order created listing Hs Hp). Qed.
 Print Assumptions wal_file_restore_order.
 
 (* sensitivity (documented mutant, not a finding): a plain string comparison of the names replays 10.wal before 9.wal *)
